@@ -15,6 +15,10 @@ SITE = "function_logger.py:_record"
 class Raised(Exception):
     pass
 
+# case kinds of corpus/ entries (failing inputs of past regressions) that this module replays on every run
+CORPUS_KINDS = ('logger_seq',)
+
+
 
 def py_outcome(o, rng):
     """Python return value realising an abstract outcome."""
